@@ -16,13 +16,16 @@ from concurrent.futures import ThreadPoolExecutor
 
 VERIF = os.path.dirname(os.path.dirname(os.path.abspath(__file__)))
 REPO = os.environ.get("VERIF_REPO", "/repo")
-BUILD = os.path.join(VERIF, "build")
+# VERIF_COV=1: a separate build tree whose plain configuration is instrumented for gcov (tools/coverage.sh: which lines of the library
+# the drivers of all checks reach); never used by a registered check
+COV = bool(os.environ.get("VERIF_COV"))
+BUILD = os.path.join(VERIF, "build-cov" if COV else "build")
 SPEC = os.path.join(VERIF, "spec")
 HARNESS = os.path.join(VERIF, "harness")
 # evidence and replays of a run against another tree (VERIF_REPO, used to try seeded changes) stay out of the committed ones
-_ALT = "" if REPO == "/repo" else "-" + hashlib.sha1(REPO.encode()).hexdigest()[:8]
-EVIDENCE = os.path.join(VERIF, "evidence") if not _ALT else os.path.join(VERIF, "build", "evidence" + _ALT)
-REPLAYS = os.path.join(VERIF, "replays") if not _ALT else os.path.join(VERIF, "build", "replays" + _ALT)
+_ALT = "" if REPO == "/repo" and not COV else "-" + hashlib.sha1(REPO.encode()).hexdigest()[:8]
+EVIDENCE = os.path.join(VERIF, "evidence") if not _ALT else os.path.join(BUILD, "evidence" + _ALT)
+REPLAYS = os.path.join(VERIF, "replays") if not _ALT else os.path.join(BUILD, "replays" + _ALT)
 TLA_JAR = "/opt/veriftools/tla/tla2tools.jar:/opt/veriftools/tla/CommunityModules-deps.jar"
 GUARD = "IPR_VERIF"
 
@@ -34,6 +37,8 @@ CONFIGS = {
              "-fno-sanitize-recover=undefined"],
     "tsan": ["-O1", "-g", "-fsanitize=thread"],
 }
+if COV:
+    CONFIGS["plain"] = ["-O0", "-g0", "--coverage"]
 LIB_SOURCES = ["interface.cxx", "impl.cxx", "io.cxx", "traversal.cxx", "utility.cxx"]
 
 
